@@ -360,7 +360,7 @@ Input == [files |-> files, ignore |-> SetToSeq(ignore), sort |-> sort]
 Facts == [files |-> facts, syntaxErrors |-> 0]
 Rec == [input |-> Input, facts |-> Facts,
         observed |-> [panic |-> FALSE, api |-> filtered,
-                      cli |-> [failed |-> FALSE, wellformed |-> TRUE, grouped |-> sort,
+                      cli |-> [ran |-> TRUE, failed |-> FALSE, wellformed |-> TRUE, grouped |-> sort,
                                list |-> IF sort THEN <<>> ELSE filtered,
                                groups |-> IF sort THEN Groups ELSE <<>>]]]
 
